@@ -20,7 +20,7 @@ import (
 
 const prelude = `(declare-sort Str 0)
 (declare-fun strlen (Str) Int)
-(assert (forall ((s Str)) (! (>= (strlen s) 0) :pattern ((strlen s)))))
+(assert (forall ((s Str)) (! (and (>= (strlen s) 0) (<= (strlen s) 9223372036854775807)) :pattern ((strlen s)))))
 (declare-datatypes ((Slice 0)) (((mk_slice (sbase Int) (soff Int) (slen Int) (scap Int)))))
 (declare-fun sat (Str Int) Int)
 (declare-fun ssub (Str Int Int) Str)
